@@ -14,8 +14,8 @@ EXTENDS HashMap, Json, IOUtils, TLC
 ASSUME TLCSet(11, ndJsonDeserialize(IOEnv.VERIF_TRACE))
 Cases == TLCGet(11)
 
-VARIABLES ci, pos, verdict
-tvars == <<content, out, ci, pos, verdict>>
+VARIABLES ci, pos, verdict, kept
+tvars == <<content, out, ci, pos, verdict, kept>>
 
 Evs == Cases[ci].evs
 
@@ -26,21 +26,21 @@ Constrained(o, c) ==
     ELSE TRUE
 
 TInit == /\ ci \in 1..Len(Cases) /\ pos = 1 /\ verdict = "run"
-         /\ content = <<>> /\ out = Nil
+         /\ content = <<>> /\ out = Nil /\ kept = <<>>
 
 TStep ==
     /\ verdict = "run" /\ pos <= Len(Evs)
     /\ LET e == Evs[pos]
-           a == Apply(content, e)
+           a == ApplyK(content, kept, e)
            okay == ~Constrained(e, content) \/ NormRes(e, e.res) = a.r
        IN IF okay
-          THEN /\ content' = a.c /\ out' = a.r /\ pos' = pos + 1 /\ UNCHANGED <<ci, verdict>>
-          ELSE /\ verdict' = "bad" /\ UNCHANGED <<content, out, ci, pos>>
+          THEN /\ content' = a.c /\ out' = a.r /\ kept' = a.k /\ pos' = pos + 1 /\ UNCHANGED <<ci, verdict>>
+          ELSE /\ verdict' = "bad" /\ UNCHANGED <<content, out, ci, pos, kept>>
                /\ PrintT(<<"VERDICT", Cases[ci].id, "bad", pos>>)
 
 TDone ==
     /\ verdict = "run" /\ pos > Len(Evs)
-    /\ verdict' = "ok" /\ UNCHANGED <<content, out, ci, pos>>
+    /\ verdict' = "ok" /\ UNCHANGED <<content, out, ci, pos, kept>>
     /\ PrintT(<<"VERDICT", Cases[ci].id, "ok", pos - 1>>)
 
 TNext == TStep \/ TDone
